@@ -228,7 +228,20 @@ func c06Drive(c *mc.Ctx, mtu, pi, absID int, start c06Start, ops []c06Op) {
 	hist := func() string {
 		return fmt.Sprintf("mtu=%d payloader=%s abs-send-time id=%d seq-start=%d initial-ts=%#x: %s", mtu, c06Payloaders[pi].name, absID0, start.seq, start.ts, strings.Join(trace, "; "))
 	}
+	// The property fixes how the timestamp advances, not where it starts: the first packet
+	// seen anchors it (the random seam proposes start.ts; an implementation may draw from a
+	// smaller range).
 	seq, ts := start.seq, start.ts
+	{
+		// what this implementation makes of the proposal: a twin built under the same seam
+		// answer is asked for one packet straight away
+		restore := rtp.VerifSetRandom(&c06Gen{ts: start.ts})
+		twin := rtp.NewPacketizer(uint16(mtu), 96, 0xDECAFBAD, &codecs.G711Payloader{}, rtp.NewFixedSequencer(0), 90000)
+		restore()
+		if first := twin.Packetize([]byte{1}, 0); len(first) == 1 {
+			ts = first[0].Timestamp
+		}
+	}
 	multi := false
 	// every packet handed out so far with its serialisation at that time: a later call must
 	// not change it (e.g. through a scratch buffer shared between calls)
